@@ -25,6 +25,7 @@ struct RecState {
   std::vector<double> x, pi, piq, obj;
   bool have_varstt = false, have_constt = false, have_iisvar = false, have_iiscon = false;
   std::vector<int> varstt, constt, iisvar, iiscon;
+  std::map<int, std::vector<int> > iiscon_g;   // script `iiscong <group> v...`: IIS statuses of the constraints of another group (C04)
   /// C04: JSON of range constraint i (quad?) of the converter, installed by CreateRecModelMgr
   std::function<std::string(bool, int)> rangecon;
   bool graph_dumped = false;
